@@ -490,6 +490,11 @@ func (c *ClientConn) Send(request Request) error {
 	})
 	if err == nil {
 		atomic.AddInt32(&c.inflight, 1)
+	} else if c.pending.loadAndDelete(stream) == nil {
+		// The connection is closing and has already taken the request to notify it (`OnClose()`), which decides what
+		// happens to the request. Reporting the error as well would make the caller move the request to the next host
+		// at the same time.
+		return nil
 	}
 	return err
 }
